@@ -223,6 +223,29 @@ class CommandPipeline:
                 # later specs that never got to run().
                 for s in specs[i:]:
                     s.close()
+                # The stages started so far are still running and nothing else
+                # will ever look at them.  Close our copies of their pipe ends
+                # so that they get EPIPE / EOF instead of blocking forever,
+                # collect them like _close_prev_procs() does, then release
+                # the remaining handles.
+                started = list(zip(specs[:i], self.procs, strict=False))
+                for s, p in started:
+                    for ch in s.pipe_channels:
+                        ch.close_reader()
+                        if not hasattr(p, "join"):
+                            # a child process writes through its own copy
+                            ch.close_writer()
+                for s, p in reversed(started):
+                    try:
+                        if hasattr(p, "join"):
+                            p.join(timeout=3)
+                        else:
+                            p.wait(timeout=3)
+                    except BaseException:
+                        pass
+                    s.close()
+                    if hasattr(p, "_restore_sigint"):
+                        p._restore_sigint()
                 self.proc = None
                 return
             if proc.pid and pipeline_group is None and not spec.is_proxy:
